@@ -12,7 +12,7 @@ cp "$demo" "$dest"
 demopkg="./$(dirname "$dest")/"
 go test -vet=off -count=1 -run "$rx" "$demopkg" >/tmp/seedrun/v1.$$ 2>&1; a=$?
 git apply "$d/patch.diff" || { echo "PATCH DOES NOT APPLY"; cd /; git -C /repo worktree remove --force "$wt"; exit 3; }
-go build $pkg >/tmp/seedrun/vb.$$ 2>&1; bld=$?
+go test -vet=off -count=1 -run '^$' $pkg >/tmp/seedrun/vb.$$ 2>&1; bld=$?
 go test -vet=off -count=1 -run "$rx" "$demopkg" >/tmp/seedrun/v2.$$ 2>&1; b=$?
 rm "$dest"
 go test -vet=off -count=1 $pkg >/tmp/seedrun/v3.$$ 2>&1; c=$?
